@@ -17,43 +17,76 @@ MANIFEST = dict(
     category="other",
     text=("Bounded symbolic execution of the real temperature arithmetic (symx): for every enumerated ordered pair of "
           "temperature units (K, R, degC, degF, delta_degC, delta_degF, the spellings °C/°F and the SI-prefixed forms of "
-          "K, degC, delta_degC) x operation x call form, the readings are z3 reals and z3 proves per path that a returned "
-          "value equals the affine (kelvin) result expressed in the unit the result is labelled with, that conversions are "
-          "the affine maps, and that every forbidden combination raised; any model is replayed on plain unyt."),
+          "K, degC, delta_degC) x operation x call form - including every placement of an out= target (either operand itself, "
+          "a reversed view of it, a quantity of another unit, a plain ndarray) and one object used as both operands - the "
+          "readings are z3 reals and z3 proves per path that a returned value equals the affine (kelvin) result expressed in "
+          "the unit the result is labelled with, that conversions are the affine maps on every route (to / in_units / to_value / "
+          "convert_to_units / Unit.get_conversion_factor with string, Unit and borrowed-unit targets; in_base / in_mks / in_cgs / "
+          "convert_to_base / _mks / _cgs / get_base_equivalent for shipped and user-defined unit systems named by string, by "
+          "object or through the registry; two- to six-step conversion chains; implicit conversions by item assignment, np.copyto "
+          "and list coercion), and that every forbidden combination raised; any model is replayed on plain unyt."),
     design="DESIGN.md section 4 C08",
     technique="symbolic execution of the real Python code over z3 real terms; SMT (QF_LRA/NRA) obligations per path; counterexample replay")
 EXPLANATION = (
     "The real unyt_array.__array_ufunc__ (with _preserve_units, _difference_units, the K/R+offset guard, the delta_ guard, "
-    "the multiply/divide guard), Unit.__mul__/__truediv__/__pow__, _get_conversion_factor/in_units/convert_to_units/to_value "
-    "and diff_helper (np.diff, np.ediff1d, np.ptp) are executed on quantities whose readings are z3 reals; the units are the "
-    "table's. An independent oracle maps a reading x of unit U to kelvin, a_U*x+b_U (exact rationals 273.15, 459.67, 5/9, "
-    "10**n); the oracle row of a result is chosen by the NAME of the unit the result carries. Per path z3 decides pc & not(P) "
-    "for: conversion A->B equals (a_A x + b_A - b_B)/a_B on four routes; point+-difference, difference+point, "
-    "difference+-difference, point-point (operator, ufunc, in-place, out=, outer, reduce/accumulate forms, np.diff, "
-    "np.ediff1d, np.ptp) either raise or return the affine result in the labelled unit (differences must be labelled with a "
-    "difference unit); comparisons and max/min of same-kind operands agree with the kelvin comparison; and every forbidden "
-    "call (two different offset scales in add/subtract/comparison/max/min; multiply, divide, floor-divide, square, "
-    "sqrt, cbrt, power, reciprocal, product/quotient reductions of an offset-scale quantity, in every form) raised on that path, "
-    "i.e. for all readings.")
+    "the multiply/divide guard), Unit.__mul__/__truediv__/__pow__, _get_conversion_factor/in_units/convert_to_units/to_value, "
+    "in_base/in_mks/in_cgs/convert_to_base/convert_to_mks/convert_to_cgs, Unit.get_base_equivalent, __setitem__, the np.copyto "
+    "handler, _coerce_iterable_units and diff_helper (np.diff, np.ediff1d, np.ptp) are executed on quantities whose readings are "
+    "z3 reals; the units are the table's. An independent oracle maps a reading x of unit U to kelvin, a_U*x+b_U (exact rationals "
+    "273.15, 459.67, 5/9, 10**n); the oracle row of a result is chosen by the NAME of the unit the result carries; the temperature "
+    "base unit of a unit system comes from a table written here. Per path z3 decides pc & not(P) for: "
+    "(1) conversion A->B equals (a_A x + b_A - b_B)/a_B on the routes to / in_units / to_value / convert_to_units with the target "
+    "given as a string, as a Unit object or as the .units of another quantity, and through Unit.get_conversion_factor "
+    "(new = old*factor - offset); for quantities that are fresh, copied, deep-copied or carry a copied Unit; "
+    "(2) conversion to the temperature base unit of a unit system (mks, cgs, imperial, galactic, solar, geometrized, and systems "
+    "defined here whose temperature base is degC, degF, mK, mdegC or delta_degF) equals the affine map and is labelled with that base "
+    "unit, on in_base / convert_to_base with the system named by string, passed as a UnitSystem, passed as keyword, or taken from the "
+    "registry the quantity lives in, on in_mks / in_cgs / convert_to_mks / convert_to_cgs / the no-argument defaults, and on "
+    ".to(units.get_base_equivalent(...)); then one object is converted in place to the base of every system in turn and back "
+    "(history in one path); "
+    "(3) conversion chains A->B->C, A->B->C->A by value and A->B->C1->C2->..->A in place on one object equal the direct affine map; "
+    "(4) implicit conversions (d[:] = q, d[i] = q, np.copyto with and without where=, a list of two quantities) leave the affine "
+    "image of the reading in the unit the holder carries; "
+    "(5) point+-difference, difference+point, difference+-difference, point-point (operator, ufunc, in-place, outer, "
+    "reduce/accumulate forms, np.diff, np.ediff1d, np.ptp) either raise or return the affine result in the labelled unit "
+    "(differences must be labelled with a difference unit) - for EVERY placement of the result: no out=, out= a fresh quantity of "
+    "the right / left / a third unit, out= a plain ndarray, out=(o,), out positional, out= the left operand, out= the right operand, "
+    "out= a reversed view of either operand, and one object passed as both operands (and as out=); reductions and accumulations with "
+    "out= a fresh target of the same / another unit, a plain ndarray and (accumulate) the operand itself; both the returned value "
+    "and the target must hold the result; "
+    "(6) comparisons and max/min of same-kind operands agree with the kelvin comparison (max/min with the same out= placements); "
+    "(7) every forbidden call (two different offset scales in add/subtract/comparison/max/min; multiply, divide, floor-divide, "
+    "square, sqrt, cbrt, power, reciprocal, product/quotient reductions of an offset-scale quantity, in every form including out= "
+    "an operand, a third-unit quantity or a plain ndarray) raised on that path, i.e. for all readings.")
 BOUNDS = {
     "quick": "units {K, R, degC, degF, delta_degC, delta_degF, °C, °F} + prefixes {m, k} of K/degC/delta_degC (14 spellings); "
-             "all ordered pairs; additive and multiplicative ops in operator/ufunc/in-place/out=/outer form on scalar and "
-             "2-element readings (per unit x unit-family case: the prefixed forms of one base unit share a case); "
-             "multiplication/division by bare numbers, dimensionless and metre quantities and Unit objects; the power family "
-             "with exponents {2, 3, -1, -2, 1/2, 1/3, 3/2, -1/2}; comparisons and max/min on scalar readings; "
-             "reductions/diff/ediff1d/ptp on 2-element arrays; conversions on 4 routes, scalar and 2-element readings",
+             "all ordered pairs; additive and multiplicative ops in operator/ufunc/in-place/outer form and 10 out= placements for add/subtract (8 on scalars: no views; 5 for the multiplicative refusals) on "
+             "scalar and 2-element readings (per unit x unit-family case: the prefixed forms of one base unit share a case); one object "
+             "as both operands; multiplication/division by bare numbers, dimensionless and metre quantities and Unit objects; the power "
+             "family with exponents {2, 3, -1, -2, 1/2, 1/3, 3/2, -1/2} (out= fresh and out= the operand); comparisons and max/min "
+             "(6 out= placements) on scalar readings; reductions/diff/ediff1d/ptp on 2-element arrays incl. out= targets; conversions "
+             "on 4 routes x string targets (scalar and 2-element readings; copies: scalar), 5 routes x Unit / borrowed-unit targets "
+             "(2-element); base-unit conversion: 8 unit systems (mks, cgs, imperial, galactic + 4 defined here) x 9-15 routes, scalar "
+             "and 2-element, followed by an 8-step in-place history; chains: every middle unit x thirds {degF, mdegC, R}, scalar; "
+             "implicit conversions: 5 routes x every holder unit",
     "thorough": "same with all 22 SI prefix spellings (74 unit spellings, 5476 ordered pairs); additionally mixed scalar/array "
                 "operands, comparisons and max/min also on 2-element readings where at least one operand is an unprefixed "
                 "spelling (prefixed x prefixed pairs: scalar readings only - cut for wall time), reductions on 3-element "
-                "arrays, second differences",
+                "arrays, second differences; Unit-object targets also on scalar readings; 11 unit systems; chains through all 74 middle "
+                "units with thirds {degF, mdegC, R, delta_degC}; the out= placements of max/min only for pairs of the 14 quick "
+                "spellings (cut for wall time)",
 }
 OUTSIDE = ("IEEE rounding/overflow (A1); integer/complex payloads (C17). Not obliged because the property does not state them: "
            "difference - point, point + point on the SAME offset scale (sum/mean of readings), comparisons/max/min of a point "
            "with a difference, remainder/mod/fmod, powers 0 and 1, ufuncs outside add/subtract/multiply/divide/power/"
            "comparison/max-min; the `**` operator with exponents 2, 0.5, -1 (ndarray.__pow__ turns them into np.square/np.sqrt/"
            "np.reciprocal for float payloads only; those ufuncs and np.power with these exponents are checked); np.divmod (NumPy has no object-dtype loop for it, so the engine cannot drive it; its defect is "
-           "listed under C01/C04). Whether an *allowed* combination is refused is not judged (value-if-returned). "
-           "Units are the default registry's; user-defined offset units are C03's subject.")
+           "listed under C01/C04). Whether an *allowed* combination is refused is not judged (value-if-returned); an implicit "
+           "conversion may refuse. out= with where= masks, out= targets of integer dtype, and partially overlapping views other than "
+           "the reversed view are not enumerated. The planck unit system (temperature base T_pl is not a unit of this property) and "
+           "equivalence= conversions (C09) are outside. Units are the default registry's (or a registry that differs only in its "
+           "unit system); user-defined offset units are C03's subject. Guards on the dtype of an out= target are followed under "
+           "assumption A4 (an object payload stands for float64).")
 CONFORM = {"quick": 100000, "thorough": 600}
 
 # --------------------------------------------------------------------------------------------- oracle (independent of unyt)
@@ -184,6 +217,17 @@ def zeros(ctx, shape, unit):
 # --------------------------------------------------------------------------------------------- conversions
 
 ROUTES = ("to", "in_units", "to_value", "convert_to_units")
+# the target argument may be spelled as a string, as a Unit object, or borrowed from another quantity
+TARGET_FORMS = ("str", "Unit", "units of a quantity")
+
+
+def target_arg(ctx, B, tform):
+    unyt = ctx.mods["unyt"]
+    if tform == "Unit":
+        return unyt.Unit(B)
+    if tform == "units of a quantity":
+        return ctx.quantity(ctx.const_array(np.ones(())), B).units
+    return B
 
 
 def convert(q, tgt, route):
@@ -195,9 +239,43 @@ def convert(q, tgt, route):
         return payload(r), label_of(r)
     if route == "to_value":
         return elements(q.to_value(tgt)), None
+    if route == "get_conversion_factor":
+        # the documented contract of Unit.get_conversion_factor: new = old*factor - offset (offset None = 0)
+        f, o = q.units.get_conversion_factor(tgt)
+        return [v * f - (0.0 if o is None else o) for v in payload(q)], None
     c = q.copy()
     c.convert_to_units(tgt)
     return payload(c), label_of(c)
+
+
+def conv_want(oA, oB, xs):
+    """readings xs of A expressed in B (exact affine map through kelvin), and the rounding band of each"""
+    want = [(kel(oA, v) - oB[2]) / oB[1] for v in xs]
+    bands = [band(oA[1] * v / oB[1], oA[2] / oB[1], oB[2] / oB[1]) for v in xs]
+    return want, bands
+
+
+KMAX = C0  # the largest zero-point shift of the table, in kelvin (degC 273.15; degF 255.37)
+
+
+def judge_conv(ctx, label, oA, B, xs, r, via_offset=False, **info):
+    """r = lib(...) of a thunk returning (numbers, label or None): must not raise, numbers = affine map A->B, label = B.
+    via_offset: the value reached B through an offset scale (a chain of conversions), so the rounding band also holds the
+    zero-point shift it carried on the way, whatever A and B are"""
+    oB = oracle_of(B)
+    if r[0] == "raise":
+        ctx.require("convert/converts", False, target=B, exc=repr(r[1])[:120], **info)
+        return None
+    vals, lab = r[1]
+    want, bands = conv_want(oA, oB, xs)
+    if via_offset:
+        bands = [b + band(KMAX / oB[1]) for b in bands]
+    ok = And(*[close(v, w, tol=0, extra=e) for v, w, e in zip(vals, want, bands)]) if len(vals) == len(want) else False
+    if lab is not None:
+        ol = oracle_of(lab)
+        ok = And(ok, ol is not None and ol == oB)
+    ctx.require(label, ok, target=B, labelled=lab, **info)
+    return vals
 
 
 def _obtain(ctx, x, A, origin):
@@ -214,8 +292,9 @@ def _obtain(ctx, x, A, origin):
     return q
 
 
-def make_conv_case(A, targets, shape, origin="fresh"):
+def make_conv_case(A, targets, shape, origin="fresh", tform="str"):
     oA = oracle_of(A)
+    routes = ROUTES + (("get_conversion_factor",) if tform != "str" else ())
 
     def h(ctx):
         _fresh(ctx)
@@ -223,24 +302,223 @@ def make_conv_case(A, targets, shape, origin="fresh"):
         xs = elements(x)
         q0 = None if origin == "fresh" else _obtain(ctx, x, A, origin)  # conversions never touch their input
         for B in targets:
-            oB = oracle_of(B)
             q = q0 if q0 is not None else _obtain(ctx, x, A, origin)
-            want = [(kel(oA, v) - oB[2]) / oB[1] for v in xs]
-            bands = [band(oA[1] * v / oB[1], oA[2] / oB[1], oB[2] / oB[1]) for v in xs]
-            for route in ROUTES:
-                r = lib(lambda: convert(q, B, route))
-                if r[0] == "raise":
-                    ctx.require("convert/converts", False, route=route, target=B, exc=repr(r[1])[:120])
-                    continue
-                vals, lab = r[1]
-                ok = And(*[close(v, w, tol=0, extra=e) for v, w, e in zip(vals, want, bands)]) if len(vals) == len(want) else False
-                if lab is not None:
-                    ol = oracle_of(lab)
-                    ok = And(ok, ol is not None and ol == oB)
-                ctx.require("convert/affine map", ok, route=route, target=B, shape=shape)
-                ctx.observe(f"{B}/{route}", vals)
+            for route in routes:
+                r = lib(lambda: convert(q, target_arg(ctx, B, tform), route))
+                vals = judge_conv(ctx, "convert/affine map", oA, B, xs, r, route=route, shape=shape)
+                if vals is not None:
+                    ctx.observe(f"{B}/{route}", vals)
             ctx.require("convert/input untouched", And(oracle_of(label_of(q) or "") == oA, *[close(v, w, tol=0) for v, w in zip(payload(q), xs)]), target=B)
-    return Case(f"C08/conv/{A}/shape{tagof(shape)}" + ("" if origin == "fresh" else "/" + origin), h, bounds="symbolic: readings", weight=len(targets))
+    cid = f"C08/conv/{A}/shape{tagof(shape)}" + ("" if origin == "fresh" else "/" + origin) + ("" if tform == "str" else "/target=" + tform.replace(" ", "_"))
+    return Case(cid, h, bounds="symbolic: readings", weight=len(targets))
+
+
+# ---- conversion to the base unit of a unit system (in_base, in_mks, in_cgs, convert_to_base/mks/cgs, get_base_equivalent)
+# temperature base unit of the systems unyt ships (independent table, from the documentation of unyt.unit_systems) and of
+# five systems defined here, whose temperature base is an offset scale, a prefixed unit or a delta unit
+SYSTEM_T = {"mks": "K", "cgs": "K", "imperial": "R", "galactic": "K", "solar": "K", "geometrized": "K"}
+USER_SYSTEM_T = {"xsysc": "degC", "xsysf": "degF", "xsysmk": "mK", "xsysdf": "delta_degF", "xsysmc": "mdegC"}
+QUICK_SYSTEMS = ("mks", "cgs", "imperial", "galactic", "xsysc", "xsysf", "xsysmk", "xsysdf")
+
+
+def _system(ctx, name):
+    """the UnitSystem object of a name (user systems are (re)registered: the registry of systems is process-global)"""
+    US = ctx.mods["US"]
+    if name in USER_SYSTEM_T:
+        return US.UnitSystem(name, "m", "kg", "s", temperature_unit=USER_SYSTEM_T[name])
+    return US.unit_system_registry[name]
+
+
+def base_routes(ctx, x, A, sysname):
+    """(route, thunk -> (numbers, label)) for 'A expressed in the temperature base unit of system sysname'.
+    The system is named by string, passed as a UnitSystem object, or is the unit system of the registry the quantity
+    lives in (argument None)."""
+    unyt = ctx.mods["unyt"]
+
+    def q():
+        return ctx.quantity(x.copy(), A)
+
+    def qreg():
+        reg = ctx.registry([], unit_system=sysname)
+        return ctx.quantity(x.copy(), A, reg=reg)
+
+    def fn(mk, meth, args):
+        def g():
+            r = getattr(mk(), meth)(*args())
+            return payload(r), label_of(r)
+        return g
+
+    def inplace(mk, meth, args):
+        def g():
+            c = mk()
+            ret = getattr(c, meth)(*args())
+            if ret is not None:
+                raise HarnessError(f"{meth} is documented to work in place and return None")
+            return payload(c), label_of(c)
+        return g
+
+    def via_equivalent(mk, meth, args):
+        def g():
+            c = mk()
+            u = getattr(c.units, meth)(*args())
+            r = c.to(u)
+            return payload(r), label_of(r)
+        return g
+
+    def by_name():
+        return (sysname,)
+
+    def by_object():
+        return (_system(ctx, sysname),)
+
+    def nothing():
+        return ()
+    routes = [("in_base(name)", fn(q, "in_base", by_name)), ("in_base(UnitSystem)", fn(q, "in_base", by_object)),
+              ("in_base(unit_system=name)", lambda: (lambda r: (payload(r), label_of(r)))(q().in_base(unit_system=sysname))),
+              ("in_base() in a registry of that system", fn(qreg, "in_base", nothing)),
+              ("convert_to_base(name)", inplace(q, "convert_to_base", by_name)),
+              ("convert_to_base(UnitSystem)", inplace(q, "convert_to_base", by_object)),
+              ("convert_to_base() in a registry of that system", inplace(qreg, "convert_to_base", nothing)),
+              ("to(get_base_equivalent(name))", via_equivalent(q, "get_base_equivalent", by_name)),
+              ("to(get_base_equivalent()) in a registry of that system", via_equivalent(qreg, "get_base_equivalent", nothing))]
+    if sysname == "mks":
+        routes += [("in_mks()", fn(q, "in_mks", nothing)), ("convert_to_mks()", inplace(q, "convert_to_mks", nothing)),
+                   ("in_base() default", fn(q, "in_base", nothing)), ("convert_to_base() default", inplace(q, "convert_to_base", nothing)),
+                   ("to(get_mks_equivalent())", via_equivalent(q, "get_mks_equivalent", nothing)),
+                   ("in_base(None)", lambda: (lambda r: (payload(r), label_of(r)))(q().in_base(None)))]
+    if sysname == "cgs":
+        routes += [("in_cgs()", fn(q, "in_cgs", nothing)), ("convert_to_cgs()", inplace(q, "convert_to_cgs", nothing)),
+                   ("to(get_cgs_equivalent())", via_equivalent(q, "get_cgs_equivalent", nothing))]
+    return routes
+
+
+def make_base_case(A, systems, shape):
+    oA = oracle_of(A)
+    allsys = dict(SYSTEM_T)
+    allsys.update(USER_SYSTEM_T)
+
+    def h(ctx):
+        _fresh(ctx)
+        x = ctx.reals("x", shape)
+        xs = elements(x)
+        for name in systems:
+            if name in USER_SYSTEM_T:
+                _system(ctx, name)
+            T = allsys[name]
+            for route, thunk in base_routes(ctx, x, A, name):
+                r = lib(thunk)
+                vals = judge_conv(ctx, "base conversion/affine map", oA, T, xs, r, route=route, system=name, shape=shape)
+                if vals is not None:
+                    ctx.observe(f"{name}/{route}", vals)
+        # history: the same quantity converted to the base of one system after another, in place and by value
+        c = ctx.quantity(x.copy(), A)
+        via = False
+        for name in systems:
+            T = allsys[name]
+            via = via or oracle_of(T)[0] == "P"
+            r = lib(lambda: (c.convert_to_base(name), (payload(c), label_of(c)))[1])
+            judge_conv(ctx, "base conversion/affine map", oA, T, xs, r, via_offset=via, route="convert_to_base chain on one object", system=name)
+            r = lib(lambda: (lambda b: (payload(b), label_of(b)))(c.in_base(name).to(A)))
+            judge_conv(ctx, "base conversion/round trip", oA, A, xs, r, via_offset=via, route="in_base(name).to(source unit) after the chain", system=name)
+    return Case(f"C08/base/{A}/shape{tagof(shape)}", h, bounds="symbolic: readings", weight=len(systems) * 2)
+
+
+# ---- conversion chains: a converted quantity converts on like a freshly built one (two and three steps in one path)
+
+def make_chain_case(A, units, shape, thirds):
+    oA = oracle_of(A)
+
+    def h(ctx):
+        _fresh(ctx)
+        x = ctx.reals("x", shape)
+        xs = elements(x)
+        for B in units:
+            # by value: A -> B -> C, and back to A
+            r1 = lib(lambda: ctx.quantity(x.copy(), A).to(B))
+            if r1[0] == "raise":
+                ctx.require("convert/converts", False, route="to", target=B, exc=repr(r1[1])[:120])
+                continue
+            qB = r1[1]
+            pB = oracle_of(B)[0] == "P"
+            for C in thirds:
+                pC = oracle_of(C)[0] == "P"
+                r = lib(lambda: (lambda v: (payload(v), label_of(v)))(qB.in_units(C)))
+                judge_conv(ctx, "convert chain/affine map", oA, C, xs, r, via_offset=pB, route=f"to({B}).in_units({C})")
+                r = lib(lambda: (lambda v: (payload(v), label_of(v)))(qB.to(C).to(A)))
+                judge_conv(ctx, "convert chain/round trip", oA, A, xs, r, via_offset=pB or pC, route=f"to({B}).to({C}).to({A})")
+            # in place on ONE object: A -> B -> C -> ... -> A
+            c = ctx.quantity(x.copy(), A)
+            via = False
+            for step, C in enumerate([B] + list(thirds) + [A]):
+                r = lib(lambda: (c.convert_to_units(C), (payload(c), label_of(c)))[1])
+                judge_conv(ctx, "convert chain/affine map", oA, C, xs, r, via_offset=via, route=f"convert_to_units step {step} of a chain through {B}")
+                via = via or oracle_of(C)[0] == "P"
+    return Case(f"C08/chain/{A}/shape{tagof(shape)}", h, bounds="symbolic: readings", weight=len(units))
+
+
+# ---- implicit conversions: places where unyt converts a temperature quantity on the caller's behalf
+
+def make_implicit_case(A, units):
+    """a reading x of A stored into / merged with quantities of unit B must arrive as the affine image of x in B"""
+    oA = oracle_of(A)
+
+    def h(ctx):
+        _fresh(ctx)
+        unyt = ctx.mods["unyt"]
+        x = ctx.reals("x", (2,))
+        xs = elements(x)
+        x0 = ctx.real("x0")
+
+        def arr(B):
+            return zeros(ctx, (2,), B)
+
+        def setitem(B, whole):
+            def g():
+                d = arr(B)
+                if whole:
+                    d[:] = ctx.quantity(x.copy(), A)
+                    return payload(d), label_of(d)
+                d[1] = ctx.quantity(x0, A)
+                return payload(d)[1:], label_of(d)
+            return g
+
+        def copyto(B):
+            def g():
+                d = arr(B)
+                np.copyto(d, ctx.quantity(x.copy(), A))
+                return payload(d), label_of(d)
+            return g
+
+        def listed(B):
+            def g():
+                # a list of quantities is brought to the unit of its first element
+                r = unyt.unyt_array([ctx.quantity(ctx.const_array(np.zeros(())), B), ctx.quantity(x0, A)])
+                return payload(r)[1:], label_of(r)
+            return g
+        def copyto_where(B):
+            def g():
+                d = arr(B)
+                np.copyto(d, ctx.quantity(x.copy(), A), where=np.array([True, True]))
+                return payload(d), label_of(d)
+            return g
+        for B in units:
+            for route, thunk, vals in (("d[:] = q", setitem(B, True), xs), ("d[1] = q", setitem(B, False), [x0]),
+                                       ("np.copyto(d, q)", copyto(B), xs), ("np.copyto(d, q, where=all)", copyto_where(B), xs),
+                                       ("unyt_array([quantity of B, q])", listed(B), [x0])):
+                r = lib(thunk)
+                if r[0] == "raise":
+                    # a refusal is allowed here (value-if-returned); it is recorded for conformance
+                    ctx.observe(f"{B}/{route}", "raise:" + type(r[1]).__name__)
+                    continue
+                # judged in the unit the holder carries afterwards (np.copyto without where= relabels the holder with the
+                # source unit, the other routes keep B): the numbers, read in THAT unit, are the affine image of x
+                lab = r[1][1]
+                if oracle_of(lab or "") is None:
+                    ctx.require("implicit conversion/holder keeps a temperature unit", False, route=route, holder=B, labelled=lab)
+                    continue
+                got = judge_conv(ctx, "implicit conversion/affine map", oA, lab, vals, r, route=route, holder=B)
+                ctx.observe(f"{B}/{route}", got)
+    return Case(f"C08/implicit/{A}", h, bounds="symbolic: readings", weight=len(units))
 
 
 # --------------------------------------------------------------------------------------------- additive pair table
@@ -278,7 +556,86 @@ def additive_wants(spec, op, oA, oB, xs, ys):
 ADD_OPS = {"add": (operator.add, operator.iadd, "add"), "sub": (operator.sub, operator.isub, "subtract")}
 
 
-def additive_forms(ctx, op, A, B, x, y):
+def third_unit(A, B):
+    """a temperature unit that is neither operand's: an out= target that has to be relabelled"""
+    for u in ("R", "K", "delta_degF"):
+        if u not in (A, B):
+            return u
+
+
+def out_target_forms(ctx, uf, A, B, x, y, pairs, tail=False):
+    """the out= axis of a binary ufunc call uf(a [A], b [B], out=...): WHERE the result is written must not change it.
+    Targets: the left operand itself, the right operand itself, a reversed view of either operand (overlapping memory in
+    another order), a fresh quantity of A's unit / of a third temperature unit (B's unit is the plain 'out' form), a plain
+    ndarray; with tail=True also the one-element tuple spelling out=(o,) and out= given positionally.
+    Every thunk returns the objects that must hold the result: the returned value and, where it is a quantity that unyt
+    relabels, the target. (form, thunk, pairs)"""
+    sa, sb = x.shape, y.shape
+    bs = bshape(sa, sb)
+
+    def qa():
+        return ctx.quantity(x.copy(), A)
+
+    def qb():
+        return ctx.quantity(y.copy(), B)
+    forms = []
+    if bs == sa:
+        def out_left():
+            c = qa()
+            r = uf(c, qb(), out=c)
+            return (r, c)
+        forms.append(("out=left operand", out_left, pairs))
+    if bs == sb:
+        def out_right():
+            c = qb()
+            r = uf(qa(), c, out=c)
+            return (r, c)
+        forms.append(("out=right operand", out_right, pairs))
+    if bs == sa and len(sa) == 1:
+        def out_lview():
+            c = qa()
+            v = c[::-1]
+            r = uf(c, qb(), out=v)
+            return (r, v)
+        forms.append(("out=reversed view of left operand", out_lview, pairs))
+    if bs == sb and len(sb) == 1:
+        def out_rview():
+            c = qb()
+            v = c[::-1]
+            r = uf(qa(), c, out=v)
+            return (r, v)
+        forms.append(("out=reversed view of right operand", out_rview, pairs))
+
+    def fresh(unit):
+        def g():
+            o = zeros(ctx, bs, unit)
+            r = uf(qa(), qb(), out=o)
+            return (r, o)
+        return g
+    forms.append(("out=fresh quantity in the left unit", fresh(A), pairs))
+    forms.append(("out=fresh quantity in a third unit", fresh(third_unit(A, B)), pairs))
+
+    def out_plain():
+        o = ctx.const_array(np.zeros(bs))
+        r = uf(qa(), qb(), out=o)
+        # the bare target holds the same numbers as the returned quantity: read them under the returned label
+        return (r, ctx.quantity(o.copy(), label_of(r)))
+    forms.append(("out=plain ndarray", out_plain, pairs))
+    if tail:
+        def out_tuple():
+            o = zeros(ctx, bs, B)
+            r = uf(qa(), qb(), out=(o,))
+            return (r, o)
+
+        def out_pos():
+            o = zeros(ctx, bs, B)
+            r = uf(qa(), qb(), o)
+            return (r, o)
+        forms += [("out=(o,)", out_tuple, pairs), ("out positional", out_pos, pairs)]
+    return forms
+
+
+def additive_forms(ctx, op, A, B, x, y, tail=True):
     """(form, thunk, index pairs) - thunk returns the result object (or a tuple of objects that must all hold it)"""
     f, fi, ufn = ADD_OPS[op]
     uf = getattr(np, ufn)
@@ -304,6 +661,30 @@ def additive_forms(ctx, op, A, B, x, y):
         r = uf(qa(), qb(), out=o)
         return (r, o)
     forms.append(("out", out, (xs, ys)))
+    forms += out_target_forms(ctx, uf, A, B, x, y, (xs, ys), tail=tail)
+    if A == B and sa == sb:
+        # ONE object as both operands (and as the target): a op a
+        exs = elements(x)
+
+        def same():
+            c = qa()
+            return uf(c, c)
+
+        def same_op():
+            c = qa()
+            return f(c, c)
+
+        def same_out():
+            c = qa()
+            r = uf(c, c, out=c)
+            return (r, c)
+
+        def same_inplace():
+            c = qa()
+            r = fi(c, c)
+            return (r, c)
+        forms += [("ufunc, one object twice", same, (exs, exs)), ("op, one object twice", same_op, (exs, exs)),
+                  ("out=the object that is both operands", same_out, (exs, exs)), ("inplace with itself", same_inplace, (exs, exs))]
     if sa == (2,) and sb == (2,):
         ex, ey = elements(x), elements(y)
         forms.append(("outer", lambda: uf.outer(qa(), qb()), ([ex[0], ex[0], ex[1], ex[1]], [ey[0], ey[1], ey[0], ey[1]])))
@@ -349,6 +730,19 @@ def multiplicative_forms(ctx, A, B, x, y):
     if bs == sa:
         forms += [("mul/inplace", inpl(operator.imul)), ("div/inplace", inpl(operator.itruediv)),
                   ("floordiv/inplace", inpl(operator.ifloordiv))]
+
+    def alias(uf, which):
+        def g():
+            a, b = qa(), qb()
+            return uf(a, b, out=a if which == "left" else b)
+        return g
+    for nm, uf in (("mul", np.multiply), ("div", np.divide), ("floordiv", np.floor_divide)):
+        if bs == sa:
+            forms.append((f"{nm}/out=left operand", alias(uf, "left")))
+        if bs == sb:
+            forms.append((f"{nm}/out=right operand", alias(uf, "right")))
+        forms.append((f"{nm}/out=plain ndarray", lambda uf=uf: uf(qa(), qb(), out=ctx.const_array(np.zeros(bs)))))
+        forms.append((f"{nm}/out=fresh quantity in a third unit", lambda uf=uf: uf(qa(), qb(), out=zeros(ctx, bs, third_unit(A, B)))))
     if sa == (2,) and sb == (2,):
         forms += [("mul/outer", lambda: np.multiply.outer(qa(), qb())), ("div/outer", lambda: np.divide.outer(qa(), qb()))]
     return forms
@@ -428,7 +822,7 @@ def make_cmp_case(A, B, shape):
     return Case(f"C08/cmp/{A},{B}/shape{tagof(shape)}", h, bounds="symbolic: readings", max_paths=2000)
 
 
-def make_maxmin_case(A, B, shape):
+def make_maxmin_case(A, B, shape, out_targets=True):
     oA, oB = oracle_of(A), oracle_of(B)
     spec = same_kind_spec(oA, oB)
 
@@ -446,7 +840,8 @@ def make_maxmin_case(A, B, shape):
                 o = zeros(ctx, shape, B)
                 r = uf(ctx.quantity(x.copy(), A), ctx.quantity(y.copy(), B), out=o)
                 return (r, o)
-            for form, thunk in (("ufunc", lambda: uf(ctx.quantity(x.copy(), A), ctx.quantity(y.copy(), B))), ("out", out)):
+            targets = [(fm, th) for fm, th, _ in out_target_forms(ctx, uf, A, B, x, y, None)] if out_targets else []
+            for form, thunk in [("ufunc", lambda: uf(ctx.quantity(x.copy(), A), ctx.quantity(y.copy(), B))), ("out", out)] + targets:
                 r = lib(thunk)
                 outcome_obs(ctx, f"{ufn}/{form}", r)
                 if spec == "raise":
@@ -488,9 +883,18 @@ def power_forms(ctx, U, x):
              ("sqrt", "ufunc", lambda: np.sqrt(q())), ("sqrt", "out", lambda: np.sqrt(q(), out=o())),
              ("cbrt", "ufunc", lambda: np.cbrt(q())), ("cbrt", "out", lambda: np.cbrt(q(), out=o())),
              ("rdiv(1)", "op", lambda: 1.0 / q())]
+    def self_out(uf, *extra):
+        def g():
+            c = q()
+            return uf(c, *extra, out=c)
+        return g
+    forms += [("square", "out=the operand", self_out(np.square)), ("reciprocal", "out=the operand", self_out(np.reciprocal)),
+              ("sqrt", "out=the operand", self_out(np.sqrt)), ("cbrt", "out=the operand", self_out(np.cbrt)),
+              ("square", "out=plain ndarray", lambda: np.square(q(), out=ctx.const_array(np.zeros(shape))))]
     for pname, p in (("2", 2), ("3", 3), ("-1", -1), ("-2", -2), ("1/2", 0.5), ("1/3", third), ("3/2", 1.5), ("-1/2", -0.5)):
         forms.append(("power", f"ufunc {pname}", lambda p=p: np.power(q(), p)))
         forms.append(("power", f"out {pname}", lambda p=p: np.power(q(), p, out=o())))
+        forms.append(("power", f"out=the operand {pname}", self_out(np.power, p)))
         if pname not in ("2", "-1", "1/2"):
             forms.append(("pow operator", f"** {pname}", lambda p=p: q() ** p))
             forms.append(("pow operator", f"**= {pname}", ip(operator.ipow, p)))
@@ -589,6 +993,30 @@ def make_reduce_case(fam, prefixes, n, second=False):
                            ("sum/method", lambda: q().sum(), [(tot, terms)]),
                            ("add.accumulate", lambda: np.add.accumulate(q()), [(r, terms) for r in run]),
                            ("cumsum", lambda: np.cumsum(q()), [(r, terms) for r in run])]
+                # where the reduction is written must not change it: a fresh 0-d / n-element target of this unit or of
+                # another temperature unit, a plain ndarray, and (accumulate) the operand itself
+                other = third_unit(U, U)
+
+                def red_out(fn, unit, shape):
+                    def g():
+                        t = zeros(ctx, shape, unit) if unit is not None else ctx.const_array(np.zeros(shape))
+                        r = fn(q(), out=t)
+                        return (r, t) if unit is not None else (r, ctx.quantity(t.copy(), label_of(r)))
+                    return g
+
+                def acc_self(fn):
+                    def g():
+                        c = q()
+                        r = fn(c, out=c)
+                        return (r, c)
+                    return g
+                for tname, unit in (("same unit", U), ("third unit", other), ("plain ndarray", None)):
+                    checks += [(f"add.reduce/out={tname}", red_out(np.add.reduce, unit, ()), [(tot, terms)]),
+                               (f"sum/out={tname}", red_out(np.sum, unit, ()), [(tot, terms)]),
+                               (f"add.accumulate/out={tname}", red_out(np.add.accumulate, unit, (n,)), [(r, terms) for r in run]),
+                               (f"cumsum/out={tname}", red_out(np.cumsum, unit, (n,)), [(r, terms) for r in run])]
+                checks += [("add.accumulate/out=the operand", acc_self(np.add.accumulate), [(r, terms) for r in run]),
+                           ("cumsum/out=the operand", acc_self(np.cumsum), [(r, terms) for r in run])]
             if n == 2:
                 checks.append(("subtract.reduce", lambda: np.subtract.reduce(q()), [(a * xs[0] - a * xs[1], terms)]))
             d1 = [(a * xs[i + 1] - a * xs[i], terms) for i in range(n - 1)]
@@ -607,7 +1035,9 @@ def make_reduce_case(fam, prefixes, n, second=False):
                 outcome_obs(ctx, f"{label}/{U}", r)
                 if r[0] == "ok":
                     grp = "diff_helper" if label.split("/")[0].split("(")[0] in ("diff", "ediff1d", "ptp") else label.split("/")[0]
-                    ctx.require(f"{grp}/difference in labelled unit", affine(r[1], wants, True), call=label, unit=U, labelled=label_of(r[1]))
+                    objs = r[1] if isinstance(r[1], tuple) else (r[1],)
+                    ctx.require(f"{grp}/difference in labelled unit", And(*[affine(ob, wants, True) for ob in objs]), call=label, unit=U,
+                                labelled=[label_of(ob) for ob in objs])
     return Case(f"C08/reduce/{fam}/n{n}", h, bounds="symbolic: readings", weight=len(members))
 
 
@@ -634,6 +1064,7 @@ def cases(tier, mods):
     offs = [u for u in units if oracle_of(u)[0] == "P"]
     out = []
     quick = tier == "quick"
+    quick_units = set(all_units(QUICK_PREFIXES))
     # conversions
     for A in units:
         for sh in [(), (2,)]:
@@ -641,6 +1072,18 @@ def cases(tier, mods):
         for origin in ("copy", "deepcopy", "unitcopy"):
             for sh in ([()] if quick else [(), (2,)]):
                 out.append(make_conv_case(A, units, sh, origin))
+        # the target spelled as a Unit object / borrowed from another quantity (+ Unit.get_conversion_factor itself)
+        for tform in TARGET_FORMS[1:]:
+            for sh in ([(2,)] if quick else [(), (2,)]):
+                out.append(make_conv_case(A, units, sh, "fresh", tform))
+        # conversion to the temperature base unit of a unit system, every spelling of that request
+        systems = list(QUICK_SYSTEMS) if quick else list(SYSTEM_T) + list(USER_SYSTEM_T)
+        for sh in [(), (2,)]:
+            out.append(make_base_case(A, systems, sh))
+        # two- and three-step conversion histories, by value and in place on one object
+        thirds = ["degF", "mdegC", "R"] if quick else ["degF", "mdegC", "R", "delta_degC"]
+        out.append(make_chain_case(A, units, (), thirds))
+        out.append(make_implicit_case(A, units))
     # additive + multiplicative pair table
     sp = [((), ()), ((2,), (2,))] if quick else [((), ()), ((2,), (2,)), ((), (2,)), ((2,), ())]
     for A in units:
@@ -656,7 +1099,9 @@ def cases(tier, mods):
                 shs.append((2,))  # cut for wall time: 2-element readings only where one operand is an unprefixed spelling
             for sh in shs:
                 out.append(make_cmp_case(A, B, sh))
-                out.append(make_maxmin_case(A, B, sh))
+                # the out= placement axis of max/min: every pair of the 14 quick spellings; pairs with any other prefixed
+                # spelling keep the plain and fresh-target forms (cut for wall time; their add/subtract table has all placements)
+                out.append(make_maxmin_case(A, B, sh, out_targets=A in quick_units and B in quick_units))
     out.append(make_power_case(offs, [(), (2,)]))
     out.append(make_scaling_case(offs, [(), (2,)]))
     for fb in [f for f in fams if oracle_of(family_members(f, prefixes)[0])[0] == "D"] + ["points"]:
